@@ -8,6 +8,12 @@ use crate::common::*;
 
 pub struct C14;
 
+const HAND: [&str; 3] = [
+    "@fragment\nfn fs_main() -> @location(0) vec4<f32> { return vec4<f32>(0.0); }\n@fragment\nfn FS_Main() -> @location(1) vec4<f32> { return vec4<f32>(1.0); }\n@compute @workgroup_size(2, 3)\nfn blur() { }\n",
+    "@fragment\nfn fs_albedo() -> @location(0) vec4<f32> { return vec4<f32>(0.0); }\n@fragment\nfn fs_normal() -> @location(1) vec4<f32> { return vec4<f32>(1.0); }\n@fragment\nfn fs_far() -> @location(5) vec4<f32> { return vec4<f32>(1.0); }\n@fragment\nfn fs_depth() -> @builtin(frag_depth) f32 { return 0.5; }\n@fragment\nfn fs_red() -> @location(0) f32 { return 0.5; }\n@fragment\nfn fs_red3() -> @location(3) f32 { return 0.5; }\n",
+    "@vertex\nfn vs_main() -> @builtin(position) vec4<f32> { return vec4<f32>(0.0); }\n@vertex\nfn VS_MAIN() -> @builtin(position) vec4<f32> { return vec4<f32>(1.0); }\n@fragment\nfn Vs_Main() -> @location(2) vec4<f32> { return vec4<f32>(1.0); }\n",
+];
+
 /// 1 + the highest @location the fragment entry writes, 0 when it writes none (from naga's data).
 pub fn needed_targets(m: &naga::Module, f: &naga::Function) -> usize {
     let loc = |b: &Option<naga::Binding>| match b {
@@ -241,6 +247,14 @@ impl Property for C14 {
             }
             out.push(Case::new(format!("gen{i}"), wgsl, Params::default().validated(i % 3 == 0)));
         }
+        // hand-written shapes (round 7/8 seeds): entry point names that are distinct WGSL identifiers but have the same upper-case
+        // form (each exact name must still be exported; the generated module then has two constants of one name and does not
+        // compile, which is rustc's business), several fragment entries returning the SAME non-struct type at different locations
+        for (k, src) in HAND.iter().enumerate() {
+            for v in [false, true] {
+                out.push(Case::new(format!("hand{k}/validate={v}"), src.to_string(), Params::default().validated(v)));
+            }
+        }
         out
     }
 
@@ -278,12 +292,20 @@ impl Property for C14 {
             let name = &ep.name;
             let upper = name.to_uppercase();
             // --- name constant
-            match one(&items, Kind::Const, &format!("ENTRY_{upper}")) {
-                Ok(c) => match &c.lit {
-                    Some(Lit::Str(s)) if s == name && c.ty == "&str" => {}
-                    _ => o.fail(case, format!("constant ENTRY_{upper}"), format!("pub const ENTRY_{upper}: &str = {name:?};"), c.text.clone()),
-                },
-                Err(e) => o.fail(case, format!("constant ENTRY_{upper}"), "exactly one", e),
+            // one constant per entry point; entry points whose names differ only by case share the constant's NAME, and then
+            // every one of their exact names must still be exported under it
+            let same_upper = m.entry_points.iter().filter(|e| e.name.to_uppercase() == upper).count();
+            let cands = find(&items, Kind::Const, &format!("ENTRY_{upper}"));
+            if same_upper == 1 {
+                match one(&items, Kind::Const, &format!("ENTRY_{upper}")) {
+                    Ok(c) => match &c.lit {
+                        Some(Lit::Str(s)) if s == name && c.ty == "&str" => {}
+                        _ => o.fail(case, format!("constant ENTRY_{upper}"), format!("pub const ENTRY_{upper}: &str = {name:?};"), c.text.clone()),
+                    },
+                    Err(e) => o.fail(case, format!("constant ENTRY_{upper}"), "exactly one", e),
+                }
+            } else if cands.len() != same_upper || !cands.iter().any(|c| matches!(&c.lit, Some(Lit::Str(s)) if s == name) && c.ty == "&str") {
+                o.fail(case, format!("constant ENTRY_{upper} for `{name}`"), format!("{same_upper} constants, one of them = {name:?}"), format!("{:?}", cands.iter().map(|c| c.text.clone()).collect::<Vec<_>>()));
             }
             let entry_field = format!("entry_point:ENTRY_{upper},");
             match ep.stage {
